@@ -12,6 +12,7 @@ PROP = {
     "assumptions": [
         "floats are modelled as IEEE-754 bit patterns as they are on the wire (32-bit patterns for F4). The binary64->binary32 rounding Go's float32(v) conversion performs when an F4 item built from an inexact float64 is encoded is NOT modelled in Coq: for such arguments (shape F/inexact64) the harness takes the logical element to be Float32bits(float32(v)) computed by the Go compiler's own conversion. Quieting of signalling NaNs by float32<->float64 conversions is likewise outside the model (the generator uses quiet F4 NaNs; both sides canonicalise F4 NaN patterns). Magnitudes beyond MaxFloat32 (clamping) are C16's subject",
         "well-formedness (wf) excludes an EmptyItem below the root: for that class the statement is refuted (C01_empty_child_refuted, known finding C01-empty-child)",
+        "trees with decoded children: an 'R:<hex>' child is the item secs2.Decode/DecodeOwned returns for those bytes (canonical or with non-canonical length fields); the model (Secs2/Raw.v) re-emits the retained bytes, as the code does",
         "constructor argument conversion/clamping (which Go value denotes which element) is C16's subject; here every argument denotes its element exactly",
     ],
 }
